@@ -58,7 +58,8 @@ dreadtriple(int *m, int *n, int_t *nonz,
     asub = *rowind;
     xa   = *colptr;
 
-    val = (double *) SUPERLU_MALLOC(*nonz * sizeof(double));
+    if ( !(val = (double *) SUPERLU_MALLOC(*nonz * sizeof(double))) )
+        ABORT("Malloc fails for val[]");
     row = int32Malloc(*nonz);
     col = int32Malloc(*nonz);
 
